@@ -418,6 +418,18 @@ class C03:
         elif cause:
             rec.violation(f"{kind}/{cause}", case, detail)
         else:
+            if kind.startswith("MEANING-DIFFERS") and isinstance(detail, dict):
+                # a command whose words form an unparenthesised Python tuple (`cmd1 -- a,b` = `cmd1 - -a, b`): at statement level
+                # outside a block the context-aware phase does not turn it into a command; it is evaluated as Python and raises
+                bt = detail.get("bare_trace") or {}
+                try:
+                    pt = ast.parse(str(detail.get("B", "")).replace("\\\n", " "))
+                    tuple_shaped = len(pt.body) == 1 and isinstance(pt.body[0], ast.Expr) and isinstance(pt.body[0].value, ast.Tuple)
+                except (SyntaxError, IndentationError):
+                    tuple_shaped = False
+                if tuple_shaped and not bt.get("cmds") and bt.get("exc") in ("TypeError", "NameError"):
+                    rec.violation("MEANING-DIFFERS/python-tuple-shaped-command-is-run-as-python", case, detail)
+                    return
             rec.violation(f"{kind}/unexplained/{where}", case, detail)
 
     def judge_pair(self, tree, where, cont, rec, repair=(), count=False):
@@ -548,6 +560,8 @@ class C03:
         if sh["index"] == 0:
             for t, w in directed:
                 self.run_case({"kind": "pair", "tree": t, "where": w, "cont": 0}, rec)
+            # witness of the listed finding about Python-shaped commands cut by continuations
+            self.run_case({"kind": "pair", "tree": P("cmd1", "--", "a,b"), "where": "backslash-continuation-twice", "cont": 46}, rec)
         for i in harness.budgeted(range(sh["pairs"]), rec):
             g.risk = rng.choice([None] * 8 + RISKS)
             t = g.chain()
